@@ -51,7 +51,12 @@ GEN_BIG = {"ThermalOn": "= FALSE", "MaxNodes": "= 6", "MaxChords": "= 2", "Deman
 def scenarios(tier, seed, rnd):
     """scenario pool: exhaustive small space (cached) + seeded simulation of the large one"""
     sh = core.spec_hash("PPRefHyd", "GenHyd")
-    small = core.cached("hydsmall" + sh, lambda: [r for r in gen(GEN_SMALL)[1]])
+    # quick: every one-branch scenario (exhaustive) + simulation; thorough: every two-element scenario as well
+    if tier == "quick":
+        small = core.cached("hydsmall1" + sh, lambda: [r for r in gen(dict(GEN_SMALL, MaxSteps="= 1", NVals="= {0, 160, 1600}", HVals="= {1, 2, 3}", ZetaVals="= {0, 1, 2}", Demands="<- DemandsDef"))[1]])
+        small += core.cached("hydsmall2s%d" % seed + sh, lambda: gen(dict(GEN_SMALL, MaxSteps="= 2"), simulate="num=250", depth=4, seed=seed + 101)[1])
+    else:
+        small = core.cached("hydsmall" + sh, lambda: [r for r in gen(GEN_SMALL)[1]])
     big = []
     for steps, num in ((3, 60), (4, 80), (5, 120), (7, 120)):
         n = num if tier == "quick" else num * 12
